@@ -1,17 +1,36 @@
 (* C20 - BESS route modules mirror the kernel's routes and neighbours.  Statements only.
+   (model of conf/route_control.py after the repair 1b62c73: a LIST of routes waits for an unresolved next hop)
 
    run (init ifs) h   the state of RouteController + BESS + kernel view after the netlink history h
    run_ok G s h       the boolean guard G holds at every step of h
-   guards             wf_ev           the kernel adds only absent prefixes, deletes only routes it has, MACs are stable
-                      bound_ev        a next hop is reached over one interface
-                      onepending_ev   at most one route waits for an unresolved next hop            (else F29a)
-                      nodelpending_ev no route is deleted while its next hop is unresolved          (else F29b)
-                      keepuser_ev     a deletion leaves another route through the same next hop     (else F29c)
-                      good_ev = wf && bound && onepending && nodelpending ;  goodu_ev = good_ev && keepuser_ev *)
+   guards             wf_ev        the domain of the property: the kernel adds only absent prefixes, deletes only
+                                   routes it has, a neighbour's MAC is stable
+                      bound_ev     a next hop is reached over one interface                                (else F40)
+                      keepuser_ev  deleting a route of a resolved next hop leaves another route through it (else F29c)
+                      good_ev = wf && bound ;  goodu_ev = good && keepuser ;  but_bound = wf && keepuser *)
 From Coq Require Import NArith ZArith List Bool.
 From UPF Require Import Model.RouteCtl Proofs.RouteCtlProofs.
 Import ListNotations.
 Open Scope N_scope.
+
+(* ---- mirror: installed <-> the kernel has the route and the next hop's MAC is known.
+   Every kernel-admissible history: any number of routes waiting for one next hop, deletions while
+   waiting, next hops on several interfaces, last routes deleted. *)
+Theorem C20_mirror : forall ifs h, run_ok wf_ev (init ifs) h = true ->
+  forall i p, (exists g, lookup (i, p) (lpm (bs (run (init ifs) h))) = Some g) <->
+              (exists nh mac, lookup p (kern (run (init ifs) h)) = Some (nh, i) /\
+                              lookup nh (kneigh (run (init ifs) h)) = Some mac).
+Proof. exact mirror_wf. Qed.
+Print Assumptions C20_mirror.
+
+(* ---- all installed routes through one next hop use one gate number (every admissible history) *)
+Theorem C20_one_gate_per_next_hop : forall ifs h, run_ok wf_ev (init ifs) h = true ->
+  forall p1 p2 nh i1 i2 g1 g2,
+    lookup p1 (kern (run (init ifs) h)) = Some (nh, i1) -> lookup p2 (kern (run (init ifs) h)) = Some (nh, i2) ->
+    lookup (i1, p1) (lpm (bs (run (init ifs) h))) = Some g1 -> lookup (i2, p2) (lpm (bs (run (init ifs) h))) = Some g2 ->
+    g1 = g2.
+Proof. exact one_gate_wf. Qed.
+Print Assumptions C20_one_gate_per_next_hop.
 
 (* ---- gates: two live next hops (entries of the neighbour cache) on one interface never share a gate.
    Every history; the only hypothesis is that a next hop sits on one interface. *)
@@ -29,7 +48,7 @@ Theorem C20_gates_distinct_on_graph_partial : forall ifs h, run_ok good_ev (init
 Proof. exact obs_gates_good. Qed.
 Print Assumptions C20_gates_distinct_on_graph_partial.
 
-(* ---- one gate and one MAC-rewrite module per next hop *)
+(* ---- the gate of a next hop leads to the one MAC-rewrite module of that next hop and on to Merge *)
 Theorem C20_shared_gate_partial : forall ifs h, run_ok good_ev (init ifs) h = true ->
   forall p nh i g, lookup p (kern (run (init ifs) h)) = Some (nh, i) ->
     lookup (i, p) (lpm (bs (run (init ifs) h))) = Some g ->
@@ -39,37 +58,11 @@ Theorem C20_shared_gate_partial : forall ifs h, run_ok good_ev (init ifs) h = tr
 Proof. exact routes_share_good. Qed.
 Print Assumptions C20_shared_gate_partial.
 
-(* false when a next hop is used on two interfaces (F40) ... *)
+(* false when a next hop is used on two interfaces (F40) *)
 Theorem C20_shared_gate_refuted : exists ifs h, run_ok but_bound (init ifs) h = true /\
   ~ routes_share (run (init ifs) h) /\ ~ obs_gates_distinct (run (init ifs) h).
 Proof. exact shared_gate_refuted_two_ifaces. Qed.
 Print Assumptions C20_shared_gate_refuted.
-
-(* ... and when a route deleted while pending is later installed over a live route (F29b) *)
-Theorem C20_shared_gate_refuted_stale : exists ifs h, run_ok but_nodelpending (init ifs) h = true /\
-  ~ routes_share (run (init ifs) h) /\ ~ obs_gates_distinct (run (init ifs) h).
-Proof. exact shared_gate_refuted_stale. Qed.
-Print Assumptions C20_shared_gate_refuted_stale.
-
-(* ---- mirror: installed <-> the kernel has the route and the next hop's MAC is known *)
-Theorem C20_mirror_partial : forall ifs h, run_ok good_ev (init ifs) h = true ->
-  forall i p, (exists g, lookup (i, p) (lpm (bs (run (init ifs) h))) = Some g) <->
-              (exists nh mac, lookup p (kern (run (init ifs) h)) = Some (nh, i) /\
-                              lookup nh (kneigh (run (init ifs) h)) = Some mac).
-Proof. exact mirror_good. Qed.
-Print Assumptions C20_mirror_partial.
-
-(* F29a: a second route waiting for the same unresolved next hop overwrites the first *)
-Theorem C20_mirror_refuted : exists ifs h, run_ok but_onepending (init ifs) h = true /\
-  ~ mirror (run (init ifs) h).
-Proof. exact mirror_refuted_overwritten. Qed.
-Print Assumptions C20_mirror_refuted.
-
-(* F29b: deleting a still-unresolved route does not purge it *)
-Theorem C20_mirror_refuted_deleted_pending : exists ifs h, run_ok but_nodelpending (init ifs) h = true /\
-  ~ mirror (run (init ifs) h).
-Proof. exact mirror_refuted_deleted_pending. Qed.
-Print Assumptions C20_mirror_refuted_deleted_pending.
 
 (* ---- the rewrite module exists iff at least one installed route uses it *)
 Theorem C20_update_module_iff_used_partial : forall ifs h, run_ok goodu_ev (init ifs) h = true ->
@@ -102,11 +95,18 @@ Theorem C20_update_modules_never_removed : forall ifs h1 h2 u m,
 Proof. exact update_modules_never_removed. Qed.
 Print Assumptions C20_update_modules_never_removed.
 
-(* ---- non-vacuity: a history that satisfies every guard, on two managed interfaces, with a route
-   that waits, routes sharing a next hop, deletions, noise and a route on an unmanaged interface *)
+(* ---- non-vacuity: a history that satisfies every guard, on two managed interfaces: three routes wait for
+   one next hop (one is deleted while waiting), routes share next hops, deletions, noise, unmanaged interface *)
 Example C20_guards_inhabited :
   run_ok goodu_ev (init [0; 1]) h_good = true /\
   lpm (bs (run (init [0; 1]) h_good)) = [((0, 1), 0); ((0, 2), 1); ((1, 3), 0); ((0, 0), 2)] /\
   map fst (upd (bs (run (init [0; 1]) h_good))) = [MUpdI 0 101; MUpdI 0 102; MUpdI 1 104; MUpdI 0 103] /\
-  map (fun kv => (fst kv, n_count (snd kv))) (ncache (run (init [0; 1]) h_good)) = [(1, 1%Z); (2, 1%Z); (4, 1%Z); (3, 1%Z)].
+  map (fun kv => (fst kv, n_count (snd kv))) (ncache (run (init [0; 1]) h_good)) = [(1, 1%Z); (2, 1%Z); (4, 1%Z); (3, 1%Z)] /\
+  unres (run (init [0; 1]) h_good) = [].
+Proof. vm_compute. repeat split. Qed.
+
+(* the two histories that refuted the mirror before the repair (F29a, F29b): both routes installed; nothing installed *)
+Example C20_repaired_histories :
+  lpm (bs (run (init [0]) h_overwritten)) = [((0, 0), 0); ((0, 1), 0)] /\
+  lpm (bs (run (init [0]) h_deleted_pending)) = [] /\ unres (run (init [0]) h_deleted_pending) = [].
 Proof. vm_compute. repeat split. Qed.
